@@ -33,6 +33,8 @@ func setBridger(claim crosschaintypes.ExternalClaim, bridger, chain string) {
 		c.BridgerAddress, c.ChainName = bridger, chain
 	case *crosschaintypes.MsgBridgeTokenClaim:
 		c.BridgerAddress, c.ChainName = bridger, chain
+	case *crosschaintypes.MsgSendToExternalClaim:
+		c.BridgerAddress, c.ChainName = bridger, chain
 	case *crosschaintypes.MsgOracleSetUpdatedClaim:
 		c.BridgerAddress, c.ChainName = bridger, chain
 	case *crosschaintypes.MsgBridgeCallClaim:
@@ -47,6 +49,8 @@ func setNonce(claim crosschaintypes.ExternalClaim, nonce, height uint64) {
 	case *crosschaintypes.MsgSendToFxClaim:
 		c.EventNonce, c.BlockHeight = nonce, height
 	case *crosschaintypes.MsgBridgeTokenClaim:
+		c.EventNonce, c.BlockHeight = nonce, height
+	case *crosschaintypes.MsgSendToExternalClaim:
 		c.EventNonce, c.BlockHeight = nonce, height
 	case *crosschaintypes.MsgOracleSetUpdatedClaim:
 		c.EventNonce, c.BlockHeight = nonce, height
